@@ -5,9 +5,11 @@ use crate::Case;
 
 pub mod bitvec;
 pub mod iters;
+pub mod prefetch;
 pub mod prims;
 pub mod total;
 pub mod trees;
+pub mod twins;
 pub mod vectors;
 
 pub fn cases(cfg: &Cfg) -> Vec<Case> {
@@ -21,6 +23,9 @@ pub fn cases(cfg: &Cfg) -> Vec<Case> {
         "C06" => vectors::cases_c06(cfg),
         "C07" => vectors::cases_c07(cfg),
         "C08" => bitvec::cases_c08(cfg),
+        "C09" => prefetch::cases_c09(cfg),
+        "C10" => twins::cases_c10(cfg),
+        "C11" => twins::cases_c11(cfg),
         "C12" => iters::cases_c12(cfg),
         "C13" => prims::cases_c13(cfg),
         "C17" => prims::cases_c17(cfg),
